@@ -636,7 +636,7 @@ namespace
             ++t->tickets;
             t->at_gate = 0;  // counts as running until it reaches the next gate / blocks / finishes
             r.rcv.notify_all();
-            r.rcv.wait_for(lk, 60ms, settled);
+            r.rcv.wait_for(lk, 1500ms, settled);   // generous: a descheduled thread must not be overtaken
             ++r.steps_done;
         }
         r.free_run = true;
